@@ -39,7 +39,7 @@ import (
 // implicit uses in between (a Use is an explicit operation).
 
 type hop struct {
-	kind byte // 'N', 'S', 'C', 'A', 'U'
+	kind byte // 'N', 'S', 'C', 'A', 'U', 'M'
 	i, j int  // object index / second object index or point index
 }
 
@@ -53,6 +53,8 @@ func (o hop) String() string {
 		return fmt.Sprintf("Copy(#%d)", o.i)
 	case 'A':
 		return fmt.Sprintf("Assign(#%d=#%d)", o.i, o.j)
+	case 'M':
+		return fmt.Sprintf("MutateReturnedPoint(#%d)", o.i)
 	}
 	return fmt.Sprintf("Use(#%d)", o.i)
 }
@@ -100,6 +102,8 @@ func genHistories(depth, npts int, canSet bool) [][]hop {
 			if len(cur)+1 < depth { // a trailing Use adds nothing: the final check uses every object
 				rec(append(cur, hop{'U', i, 0}), live)
 			}
+			// q := obj.Point() / Basepoint(); then q is overwritten in place (T11: memory the library hands out)
+			rec(append(cur, hop{'M', i, 0}), live)
 		}
 	}
 	rec(nil, 0)
@@ -117,6 +121,12 @@ type histKind struct {
 	copyObj func(o interface{}) interface{}
 	assign  func(dst, src interface{})
 	use     func(w *mc.W, o interface{}, model int, where string, cas map[string]string)
+	// handed-out memory: get returns what Point()/Basepoint() returns; mutate overwrites it in place (variant how) and
+	// returns the value it must hold from now on, given the point it held; checkHeld compares a held value
+	get       func(o interface{}) interface{}
+	mutate    func(q interface{}, how int, was ref.Point) ref.Point
+	checkHeld func(w *mc.W, q interface{}, want ref.Point, where string, cas map[string]string)
+	point     func(model int) ref.Point
 }
 
 // structural classes of a history, computed on the model side only
@@ -157,6 +167,8 @@ func histClasses(h []hop) (sharedThenSet, useThenSet, mutating bool) {
 			group[o.i], model[o.i], used[o.i] = group[o.j], model[o.j], used[o.j]
 		case 'U':
 			used[o.i] = true
+		case 'M':
+			mutating = true
 		}
 	}
 	return
@@ -169,8 +181,10 @@ func (s *space) runHistories(c *mc.Ctx, k *histKind, depth, npts int) {
 		h := hs[idx]
 		desc := histString(h)
 		cas := map[string]string{"object": k.name, "history": desc}
-		var objs []interface{}
+		var objs, held []interface{}
 		var model []int
+		var heldWant []ref.Point
+		hasM := false
 		try(w, k.name+"/history", cas, func() {
 			for step, o := range h {
 				switch o.kind {
@@ -186,9 +200,18 @@ func (s *space) runHistories(c *mc.Ctx, k *histKind, depth, npts int) {
 					model[o.i] = model[o.j]
 				case 'U':
 					k.use(w, objs[o.i], model[o.i], fmt.Sprintf("object #%d (model P%d) used at step %d of [%s]", o.i, model[o.i], step+1, desc), cas)
+				case 'M':
+					q := k.get(objs[o.i])
+					held = append(held, q)
+					heldWant = append(heldWant, k.mutate(q, len(held)+idx, k.point(model[o.i])))
+					hasM = true
 				}
 			}
-			if !c.Thorough && len(h) > 3 {
+			// the values handed out earlier (and overwritten by the caller) keep the caller's content whatever happened to their source since
+			for i, q := range held {
+				k.checkHeld(w, q, heldWant[i], fmt.Sprintf("returned value %d after [%s]", i, desc), cas)
+			}
+			if !c.Thorough && len(h) > 3 && !hasM {
 				cas["skip-pippenger"] = "yes" // quick: the 191-term consumer (which reads the same stored point as Point()) only after histories of length <= 3
 			}
 			for i, o := range objs {
@@ -202,6 +225,9 @@ func (s *space) runHistories(c *mc.Ctx, k *histKind, depth, npts int) {
 		}
 		if stale {
 			w.Eval("hist/"+k.name+"/used-then-set", true)
+		}
+		if hasM {
+			w.Eval("hist/"+k.name+"/returned-point-overwritten", true)
 		}
 		if idx%997 == 0 {
 			w.Sample(cas)
